@@ -14,6 +14,7 @@ RULE = (
     "two objects of one configuration interleaved, first call after construction vs later; input tensors checked for modification (_version and values). Distinct = (component, "
     "member set, permutation/layout); non-trivial = batch with >=2 distinct members."
     " Added after the seeded-fault rounds: large mixed batch vs reverse-order singles on a second object, float64/int64/int32/uint8/complex128 inputs for the input-unmodified and repeat-call clauses, strided / expanded / permuted / transposed views, deep copy and state_dict round trip of the used object, variants of one component kind in one child process."
+    " Round 5: modem form axis (deep copy, .double().float(), state_dict twin)."
 )
 ASSUMPTIONS = [
     "per-block reference evaluation is f on a (1, n) tensor (the layout every component documents)",
